@@ -17,6 +17,28 @@ type c03Case struct {
 	M       interface{} `json:"m"`
 	B       M           `json:"b"`
 	Choices []int       `json:"choices,omitempty"` // map-iteration choices of the deviating execution
+	// BadAt/BadKind: a value of a Go type that is not a legal pattern type is put under this
+	// top-level key of the pattern at run time (such values do not survive JSON, hence the indirection)
+	BadAt   string `json:"bad_at,omitempty"`
+	BadKind string `json:"bad_kind,omitempty"`
+}
+
+func (cs c03Case) pattern() interface{} {
+	p := jgen.Clone(cs.P)
+	if cs.BadAt != "" {
+		m := p.(map[string]interface{})
+		switch cs.BadKind {
+		case "uint":
+			m[cs.BadAt] = uint(1)
+		case "yaml-map":
+			m[cs.BadAt] = map[interface{}]interface{}{"k": "v"}
+		case "string-slice":
+			m[cs.BadAt] = []string{"x"}
+		default:
+			m[cs.BadAt] = struct{ X int }{1}
+		}
+	}
+	return p
 }
 
 func outcomeOf(bss []match.Bindings, err error) string {
@@ -67,12 +89,22 @@ func c03Extra() []c03Case {
 			out = append(out, c03Case{P: p, M: m, B: M{}})
 		}
 	}
+	// a value of an unsupported Go type under one key, a plain mismatch (or a match) under the others
+	for _, kind := range []string{"uint", "yaml-map", "string-slice", "struct"} {
+		for _, at := range []string{"a", "b", "c"} {
+			for _, p := range []interface{}{M{"a": "x", "b": "x", "c": "x"}, M{"a": "x", "b": "?v"}, M{"b": "x", "c": 1.0}} {
+				for _, m := range []interface{}{M{"a": "y", "b": "y", "c": "y"}, M{"a": "x", "b": "x", "c": "x"}, M{"a": M{"k": "v"}, "b": "y", "c": 1.0}} {
+					out = append(out, c03Case{P: p, M: m, B: M{}, BadAt: at, BadKind: kind})
+				}
+			}
+		}
+	}
 	return out
 }
 
 func c03One(c *vh.Ctx, cs c03Case, bound int) {
 	c.Eval()
-	p, m := jgen.Clone(cs.P), jgen.Clone(cs.M)
+	p, m := cs.pattern(), jgen.Clone(cs.M)
 	b := match.Bindings(copyB(cs.B))
 	before := [3]string{snap.Of(p), snap.Of(m), snap.Of(b)}
 	var first string
@@ -146,7 +178,7 @@ func c03One(c *vh.Ctx, cs c03Case, bound int) {
 // c03Race: the same pattern/message/bindings objects matched from 3 goroutines (run in the -race binary).
 func c03Race(c *vh.Ctx, cs c03Case) {
 	c.Eval()
-	p, m := jgen.Clone(cs.P), jgen.Clone(cs.M)
+	p, m := cs.pattern(), jgen.Clone(cs.M)
 	b := match.Bindings(copyB(cs.B))
 	want, werr := match.Match(p, m, b)
 	wo := outcomeOf(want, werr)
